@@ -776,7 +776,11 @@ pub fn finish(spec: &Spec, tier: Tier, seed: u64, m: Merged, wall: f64) -> i32 {
         println!("{}", l);
     }
     if unknown.is_empty() && extra_unknown.is_empty() {
-        println!("OK property={} held on everything explored", spec.id);
+        if known_lines.is_empty() {
+            println!("OK property={} held on everything explored", spec.id);
+        } else {
+            println!("OK property={}: no violation other than the {} recorded finding(s) above", spec.id, known_lines.len());
+        }
         0
     } else {
         for (k, n) in &m.kind_counts {
